@@ -9,6 +9,7 @@
  *                   (SIOCOUTQ == 0 on the AF_UNIX socketpair; at most 2 s), so that squid sees every scripted
  *                   write as a separate read
  *     sleep <ms>
+ *     waitfile <path>   block (at most 10 s) until the file exists
  * After the last step the process exits; squid starts a fresh one (channel ids restart at 1) for the next scenario.
  * Received lines and writes are appended to <dir>/<sid>.log.
  */
@@ -118,6 +119,11 @@ int main(int argc, char **argv)
             usleep(1500);
         } else if (!strncmp(step, "sleep ", 6)) {
             usleep(1000 * atoi(step + 6));
+        } else if (!strncmp(step, "waitfile ", 9)) {
+            char *nl = strchr(step, '\n');
+            double t0 = now();
+            if (nl) *nl = 0;
+            while (access(step + 9, F_OK) != 0 && now() - t0 < 10.0) usleep(2000);
         }
     }
     logline("exit", "", 0);
